@@ -50,6 +50,12 @@ def run_case(c):
             ts = rp.twin_surrogates(n_surrogates=2, min_dist=c["md"])
             o["rp_surr"] = [int(round(v)) for v in ts[1, :, 0]]
             o["rp_shape"] = [int(v) for v in ts.shape]
+            # re-threshold the same object: below the smallest non-zero distance every state recurs only with
+            # itself (no twins at all), back at 8 the twins are those of the first matrix again
+            rp.set_fixed_threshold(0.5)
+            o["rp_twins_low"] = [len(t) for t in rp.twins(min_dist=c["md"])[:n]]
+            rp.set_fixed_threshold(8.0)
+            o["rp_twins_back"] = [sorted(int(v) for v in t) for t in rp.twins(min_dist=c["md"])[:n]]
     except Exception as ex:
         o["exc"] = type(ex).__name__
     rec["obs"] = o
